@@ -18,3 +18,22 @@ func init() {
 			ruleR02_1, ruleR02_2, ruleR02_4},
 	})
 }
+
+func init() {
+	register(&propertySpec{
+		ID: "C03",
+		Explanation: "decides validate-before-consume: positions are validated before an operation is built, nil values are refused before construction, the operation id is rolled back on every failing path, a failed local execution appends nothing to the push buffer, and no result is used before its error is checked. NOT decided: value-level equality with the plain data structure, the bounds arithmetic inside the validators, nil values nested inside containers.",
+		Assumptions: []string{"validate* functions of the snapshots are correct"},
+		Rules:       []ruleFn{ruleR03_1, ruleR03_2, ruleR03_3, ruleR03_4, ruleR03_5},
+	})
+}
+
+func init() {
+	register(&propertySpec{
+		ID: "C04",
+		Explanation: "decides the structural facts list/array integrity rests on: remote list operations address by identity (never by index), nothing unlinks or forgets a node, every insert registers its node exactly once under its order time, sizes are decremented once per live element, index-based walks skip tombstones, updates never resurrect and concurrent siblings are ordered newest first by their immutable order time. NOT decided: the RGA ordering invariant over all interleavings; immediate readability at index i.",
+		Assumptions: []string{"element identifiers are unique (C15)"},
+		Rules: []ruleFn{func(w *World, r *Report) { ruleR01_3(w, r, true) }, ruleR04_2, ruleR04_3, ruleR04_4, ruleR04_5, ruleR04_6,
+			ruleR02_3, ruleR02_4},
+	})
+}
